@@ -196,6 +196,8 @@ fn dry_run_case(_ctx: &Ctx, case: u64, r: &mut Rng, rep: &mut Report) {
             let before = uni.snapshot();
             let res = cmd.run(&env);
             rep.evaluations += 1;
+            // detached library threads may still be at work after the call has returned
+            uni.settle(std::time::Duration::from_millis(60), std::time::Duration::from_millis(600));
             let log = uni.take_log();
             rep.count("storage_events_observed", log.len() as u64);
             let mutating: Vec<String> = log.iter().filter(|e| e.op.mutating()).map(ev_desc).collect();
@@ -260,7 +262,7 @@ pub fn run(ctx: &Ctx) -> (Report, Meta) {
     rep.merge({ let mut cb = c2.clone(); cb.case_base = 1_000_000; run_cases(&cb, n_dry, &|c, i, r, rep| dry_run_case(c, i + 1_000_000, r, rep)) });
     let meta = Meta {
         level: "fault_enumeration",
-        rule: "append-only: random programs of 3-10 public repository operations (backup, forget, prune with generated options, copy-into, merge(+delete), rewrite(+forget), repair index, repair snapshots(+delete), config changes) on a repository switched to append-only, with an ONLINE monitor in the storage universe that fires on any remove of a snapshot/index/pack file and on any overwrite with different bytes; commands the model classifies as destructive must return Err with zero mutating storage events. dry-run: every command with a dry-run switch (+ prune_plan) on intact / pack-lost / index-lost repositories must produce zero write/remove events; dry-run backup tree id == real one. distinct_nontrivial = distinct (refuse|allowed|dry, command kind, repository state)".to_string(),
+        rule: "append-only: random programs of 3-10 public repository operations (backup, forget, prune with generated options, copy-into, merge(+delete), rewrite(+forget), repair index, repair snapshots(+delete), config changes) on a repository switched to append-only, with an ONLINE monitor in the storage universe that fires on any remove of a snapshot/index/pack file and on any overwrite with different bytes; commands the model classifies as destructive must return Err with zero mutating storage events. dry-run: every command with a dry-run switch (+ prune_plan) on intact / pack-lost / index-lost repositories must produce zero write/remove events, judged after the storage has been quiet for 60 ms (detached library threads); dry-run backup tree id == real one. distinct_nontrivial = distinct (refuse|allowed|dry, command kind, repository state)".to_string(),
         exhaustive: false,
         assumptions: vec![
             "key files are outside the statement (it names snapshot, index and pack files); key removal is not judged".to_string(),
